@@ -83,6 +83,8 @@ type Exec struct {
 	rets []inlineRet
 	paramArgs map[*ssa.Parameter]ssa.Value
 	resolving map[string]bool
+	loopBase int // inlined helper: its loops continue the caller's loop numbering from here
+	inlineLoopBase map[*ssa.Function]int
 }
 
 type unsupported struct{ msg string }
@@ -172,10 +174,59 @@ func (x *Exec) findLoops() {
 		hs = append(hs, h)
 	}
 	sort.Slice(hs, func(i, j int) bool { return hs[i].Index < hs[j].Index })
-	for i, h := range hs {
-		x.loops[h].ordinal = i + 1
-		if x.fc != nil {
-			x.loops[h].spec = x.fc.Loops[i+1]
+	// Loop ordinals follow source order. A helper without a contract that
+	// contains loops and is called from here takes the next ordinals at its
+	// call site: when a loop is moved into a helper ("extract function"), the
+	// invariants the contract gives for that loop still find it. Only done when
+	// the contract has loop clauses left over for the helper's loops.
+	isHeader := map[*ssa.BasicBlock]bool{}
+	for _, h := range hs {
+		isHeader[h] = true
+	}
+	n := x.loopBase
+	for _, b := range fn.Blocks {
+		if isHeader[b] {
+			n++
+			x.loops[b].ordinal = n
+			if x.fc != nil {
+				x.loops[b].spec = x.fc.Loops[n]
+			}
+		}
+		if x.fc == nil {
+			continue
+		}
+		for _, in := range b.Instrs {
+			ci, ok := in.(ssa.CallInstruction)
+			if !ok {
+				continue
+			}
+			callee := ci.Common().StaticCallee()
+			if callee == nil || ci.Common().IsInvoke() {
+				continue
+			}
+			if fcc, _, _ := x.calleeContract(ci.Common()); fcc != nil {
+				continue
+			}
+			k := countLoops(callee)
+			if k == 0 || !x.inlinableLoops(callee, true) {
+				continue
+			}
+			have := true
+			for j := 1; j <= k; j++ {
+				if x.fc.Loops[n+j] == nil {
+					have = false
+				}
+			}
+			if !have {
+				continue
+			}
+			if x.inlineLoopBase == nil {
+				x.inlineLoopBase = map[*ssa.Function]int{}
+			}
+			if _, seen := x.inlineLoopBase[callee]; !seen {
+				x.inlineLoopBase[callee] = n
+				n += k
+			}
 		}
 	}
 }
@@ -567,6 +618,9 @@ func (x *Exec) loopEntry(li *loopInfo, phiVal func(*ssa.Phi, func(*ssa.BasicBloc
 		// keys the loop body itself writes are havoced without the locals exemption
 		for k, mode := range saved {
 			if mode == "any" && k != "brk" {
+				if _, known := e.heapSort[k]; !known {
+					continue // a component nothing has touched yet
+				}
 				if _, kept := keep[k]; !kept {
 					e.heapHavoc(x.st, k)
 				}
